@@ -33,6 +33,8 @@ type GConf struct {
 	// IOS: this managed interface belongs to VRF Vkept, for which the
 	// target specifies no routes; the device has some (see addUnmanaged).
 	KeptVRFIntf string
+	// ASA: interfaces in shutdown state (device side).
+	Shut map[string]bool
 	// IOS: order in which the Netspoc file lists the interfaces
 	// (indexes into Intfs); the device always lists them by number.
 	Perm []int
@@ -81,6 +83,9 @@ func (c *GConf) Text(device bool) string {
 		if device {
 			for i, n := range c.Intfs {
 				fmt.Fprintf(&b, "interface Ethernet0/%d\n nameif %s\n", i, n)
+				if c.Shut[n] {
+					b.WriteString(" shutdown\n")
+				}
 			}
 		}
 		for _, g := range c.Groups {
@@ -1044,6 +1049,10 @@ func (g *Gen) addUnmanaged(d *GConf) {
 		d.ACLs = append(d.ACLs, &GACL{"capture_acl", []string{"permit tcp host 192.168.7.9 any4 eq 443"}})
 		// Interface unknown to Netspoc with bound ACL.
 		d.Intfs = append(d.Intfs, "mgmt")
+		if g.Rng.Intn(2) == 0 {
+			// Administratively down, bindings left in place.
+			d.Shut = map[string]bool{"mgmt": true}
+		}
 		d.ACLs = append(d.ACLs, &GACL{"mgmt_in", []string{"permit tcp object-group admin-hosts any4 eq 22", "deny ip any4 any4"}})
 		d.Binds = append(d.Binds, [3]string{"mgmt_in", "in", "mgmt"})
 		if g.Rng.Intn(2) == 0 {
